@@ -741,3 +741,111 @@ def _callee_name(n):
     if norm(n.func) == 'functools.partial' and n.args and isinstance(n.args[0], ast.Name):
         return n.args[0].id
     return None
+
+
+# ---------------------------------------------------------------- XStr payload codec (datatypes.XStr.data_to_string)
+
+_B64_OK = ('binascii.b2a_base64', 'base64.b64encode', 'base64.standard_b64encode')
+_B64_WRAP = ('base64.encodebytes', 'base64.encodestring')
+_B64_OTHER_ALPHABET = ('base64.urlsafe_b64encode', 'base64.b32encode', 'base64.b16encode', 'base64.a85encode', 'base64.b85encode')
+_HEX_OK = ('binascii.b2a_hex', 'binascii.hexlify', 'base64.b16encode')
+
+
+def _call_chain(e):
+    """peel method calls / subscripts off an expression: returns (innermost call, [post-ops as text])"""
+    ops = []
+    while True:
+        if isinstance(e, ast.Call) and isinstance(e.func, ast.Attribute) and not (
+                isinstance(e.func.value, ast.Name) and e.func.value.id in ('binascii', 'base64', 'codecs')):
+            ops.append('.%s(%s)' % (e.func.attr, ', '.join([norm(a) for a in e.args] + [norm(k) for k in e.keywords])))
+            e = e.func.value
+        elif isinstance(e, ast.Subscript):
+            ops.append('[%s]' % norm(e.slice))
+            e = e.value
+        else:
+            break
+    return e, list(reversed(ops))
+
+
+def xstr_codec(ctx, rule):
+    """The text payload of an XStr (x:<enc>:<payload> in JSON, Type("payload") in ZINC) is produced by
+    XStr.data_to_string.  For b64 it must be standard-alphabet base64 on ONE line; for hex, plain hex digits."""
+    m = ctx.model
+    FDT = 'hszinc/datatypes.py'
+    try:
+        fn = m.func('datatypes', 'XStr.data_to_string')
+    except AnalysisError as e:
+        ctx.error(rule, str(e))
+        return
+    s = fn.args.args[0].arg
+    n = 0
+    for node in walk_no_nested(fn):
+        if not isinstance(node, ast.Return) or node.value is None:
+            continue
+        # which encoding branch?
+        enc = None
+        dead = False
+        p = node
+        while getattr(p, '_parent', None) is not None and p is not fn:
+            par = p._parent
+            if isinstance(par, ast.If):
+                t = norm(par.test)
+                in_body = p in par.body
+                if t in ("'hex' == %s.encoding" % s, "%s.encoding == 'hex'" % s) and in_body:
+                    enc = 'hex'
+                elif t in ("'b64' == %s.encoding" % s, "%s.encoding == 'b64'" % s) and in_body:
+                    enc = 'b64'
+                elif t == 'six.PY2' and in_body:
+                    dead = True
+            p = par
+        if dead:
+            continue
+        inner, ops = _call_chain(node.value)
+        where = '%s:%d' % (FDT, node.lineno)
+        if enc is None:
+            if norm(node.value) == '%s.data' % s:
+                ctx.ob(rule, 'XStr of another encoding: the text is passed through', True, where)
+            else:
+                ctx.error(rule, 'XStr.data_to_string: return `%s` outside the hex/b64 branches' % norm(node.value)[:60])
+            continue
+        if not (isinstance(inner, ast.Call) and inner.args and norm(inner.args[0]) == '%s.data' % s):
+            if enc == 'hex' and norm(node.value) == '%s.data.hex()' % s:
+                n += 1
+                ctx.ob(rule, 'XStr hex payload: bytes.hex()', True, where)
+                continue
+            ctx.error(rule, 'XStr.data_to_string (%s): `%s` is not a call of an encoder on self.data; cannot decide'
+                      % (enc, norm(node.value)[:70]))
+            continue
+        f = norm(inner.func)
+        kw = {k.arg: norm(k.value) for k in inner.keywords}
+        n += 1
+        if enc == 'hex':
+            if f in _HEX_OK and not [o for o in ops if not o.startswith(('.decode(', '.lower('))]:
+                ctx.ob(rule, 'XStr hex payload: %s, decoded as ASCII' % f, True, where)
+            else:
+                ctx.error(rule, 'XStr hex payload `%s`: encoder not tabled' % norm(node.value)[:70])
+            continue
+        strips_all = any(o in (".replace('\\n', '')", ".replace(b'\\n', b'')") for o in ops) or \
+            any(o.startswith('.translate(') for o in ops)
+        strips_end = any(o in ('[:-1]', ".rstrip('\\n')", '.rstrip()', '.strip()', ".rstrip(b'\\n')", ".strip('\\n')") for o in ops)
+        if f in _B64_OTHER_ALPHABET:
+            ctx.violation(rule, '%s::XStr.data_to_string' % FDT, norm(node.value),
+                          "XStr('b64', ...) holding the bytes fb ff: the payload is written with %s, whose output ('-_' or "
+                          "another alphabet) is not standard base64; an independent reader rejects or mis-decodes it" % f,
+                          'the b64 payload of an XStr is not standard-alphabet base64', file=FDT, line=node.lineno, engine='E4')
+        elif f in _B64_WRAP and not strips_all:
+            ctx.violation(rule, '%s::XStr.data_to_string' % FDT, norm(node.value),
+                          "an XStr('b64', ...) of 58 bytes or more: %s inserts a newline after every 76 output characters, "
+                          "and `%s` removes only the last one -- the payload of x:b64:... contains a line break, which is "
+                          "not in the lexical form of base64 text" % (f, ''.join(ops) or 'nothing'),
+                          'the b64 payload of an XStr is wrapped into lines', file=FDT, line=node.lineno, engine='E4')
+        elif f == 'binascii.b2a_base64' and kw.get('newline') != 'False' and not (strips_all or strips_end):
+            ctx.violation(rule, '%s::XStr.data_to_string' % FDT, norm(node.value),
+                          "any XStr('b64', ...): binascii.b2a_base64 appends a newline that is never removed; the payload "
+                          "of x:b64:... ends in a line break", 'the b64 payload of an XStr ends in a newline', file=FDT,
+                          line=node.lineno, engine='E4')
+        elif f in _B64_OK or f in _B64_WRAP:
+            ctx.ob(rule, 'XStr b64 payload: %s%s -- standard alphabet, one line' % (f, ''.join(ops)), True, where)
+        else:
+            ctx.error(rule, 'XStr b64 payload `%s`: encoder not tabled; cannot decide' % norm(node.value)[:70])
+    ctx.floor('XStr payload encoders', n, 2)
